@@ -1,0 +1,8 @@
+//go:build !verif
+
+package sm2
+
+import "math/big"
+
+// verifDeclassify is a verification hook; it is a no-op in normal builds.
+func verifDeclassify(x *big.Int) {}
